@@ -62,6 +62,8 @@ pub fn string_streams(tag: u64, tier: Tier, seed: u64, scale: f64) -> Vec<Stream
         }));
     }
     v.push(Stream::new("construct-slots-x-token-pairs", strings::hole_count(), true, |i| format!("s:{}", strings::hole_case(i))));
+    v.push(Stream::new("list-constructs-with-0-to-40-elements", strings::list_length_count(), true, |i| format!("s:{}", strings::list_length_case(i))));
+    v.push(Stream::new("fragments-repeated-to-a-count-then-a-tail", strings::counted_tail_count(), true, |i| format!("s:{}", strings::counted_tail_case(i))));
     v.push(Stream::new("nesting-bombs", n(600, 20_000), false, move |i| {
         let mut r = Rng::new(mix(&[seed, tag, 4, i]));
         format!("s:{}", strings::nesting_bomb(&mut r))
